@@ -476,7 +476,7 @@ func VerifC17Batch() {
 		nd.Assert(e1 == nil && e2 == nil, "C17b-create")
 	}
 	n := nd.Int("count", 0, 27)
-	last := nd.Choice("last-request", 4)
+	last := nd.Choice("last-request", 5) // 0 put, 1 delete, 2 both, 3 neither, 4 a put that is refused when it is carried out (no key attribute)
 	// the odd request is the last one of the batch or the first one (with two tables: in the table walked first,
 	// with well-formed requests for the other table after it)
 	oddAt := n - 1
@@ -499,6 +499,9 @@ func VerifC17Batch() {
 				b.DeleteRequest = &types2.DeleteRequest{Key: item2{"p": s2(k)}}
 			case 3:
 				a, b = &ddb1.WriteRequest{}, types2.WriteRequest{}
+			case 4:
+				a = &ddb1.WriteRequest{PutRequest: &ddb1.PutRequest{Item: item1{"q": s1(k)}}}
+				b = types2.WriteRequest{PutRequest: &types2.PutRequest{Item: item2{"q": s2(k)}}}
 			}
 		}
 		r1, r2 = append(r1, a), append(r2, b)
